@@ -49,8 +49,39 @@ def span_check(entry, sv):
         if not (lo <= ln <= hi) or (eln is not None and not (ln <= eln <= hi)):
             bad.append(f"{type(n).__name__} at lines {ln}..{eln}, form spans {lo}..{hi}")
     if bad:
-        return ("violated", "; ".join(sorted(set(bad))[:6]) + "\n" + sx.show(out.result), {"emitted": sx.show(out.result)})
+        return ("violated", "; ".join(sorted(set(bad))[:6]) + "\n" + sx.show(out.result),
+                {"emitted": sx.show(out.result), "replay": _replay_span(entry, sv)})
     return ("ok", None, None)
+
+
+def _replay_span(entry, sv):
+    """Through the reader and the compiler: the instantiated form as one line of source text on line 10 of a module; every
+    expression / statement node of the compiled module that can raise must carry line 10."""
+    import types
+    import hy
+    from hy.compiler import hy_compile
+    from hv import concrete
+    try:
+        toks, form = structural.make(entry, sv)
+        text = hy.repr(concrete.instantiate(form)).lstrip("'")
+        if "\n" in text:
+            return {"confirmed": False, "reason": "source text spans several lines"}
+        src = "\n" * 9 + text + "\n"
+        if entry.in_function or entry.in_class:
+            src = "\n" * 8 + "(defn hv_f []\n" + text + ")\n"
+        tree = hy_compile(hy.read_many(src, filename="<hv-c17-replay>"), types.ModuleType("hv_c17_replay"), import_stdlib=False)
+    except Exception as e:  # noqa: BLE001
+        return {"confirmed": False, "error": f"{type(e).__name__}: {e}"[:200]}
+    off = []
+    for n in ast.walk(tree):
+        if isinstance(n, (ast.expr, ast.stmt)) and not isinstance(n, ast.Constant):
+            ln = getattr(n, "lineno", None)
+            if isinstance(n, ast.FunctionDef) and n.name == "hv_f":
+                continue
+            if ln != 10:
+                off.append(f"{type(n).__name__} at line {ln}")
+    return {"confirmed": bool(off), "input": f"line 10 of a module: {text}", "observed": sorted(set(off))[:6],
+            "expected": "every node that can raise is on line 10"}
 
 
 def plumbing(chk):
